@@ -701,7 +701,10 @@ _process_request_(struct qb_ipcs_connection *c, int32_t ms_timeout)
 		res = -ESHUTDOWN;
 		goto cleanup;
 	} else if (size < (ssize_t)sizeof(*hdr) ||
+		   size > (ssize_t)c->request.max_msg_size ||
 		   hdr->size < (int32_t)sizeof(*hdr) || hdr->size > size) {
+		/* with shared memory "size" is what the peer wrote into the
+		 * ring as the chunk length: not more than was agreed on */
 		qb_util_log(LOG_DEBUG, "malformed request header (%s)",
 			    c->description);
 		res = -EINVAL;
